@@ -42,11 +42,11 @@ CLAIMED = {
     'C03': dict(text='Bounded symbolic execution of the real cloud-amount step of metarize() (_setup_sligrolay_pdf, '
                      '_calculate_cloud_amount, max_hits_per_layer, ceilos, perc2okta, okta2code) on symbolic hit tables '
                      'with a symbolic assignment of hits to sets: counts against a pairwise z3 oracle of distinct '
-                     '(ceilometer,time) measurements, percentage, okta with both buffers, monotonicity, code prefix.',
+                     '(ceilometer,time) measurements, percentage, okta with both buffers (symbolic; and concrete, so that the arithmetic on the counts is native binary64), monotonicity, code prefix.',
                 ref='DESIGN.md 4/C03', note=TRUST + '; large totals only through C18 (perc2okta for all n<=m)'),
     'C04': dict(text='Bounded symbolic execution of the real base-height and statistics steps of metarize() against an '
-                     'independently written percentile/look-back/exclusion oracle, the whole metarize() for the sort order '
-                     'and the coded floor, and height2code on every binary64 in [0,1e5). Fluffiness is not claimed.',
+                     'independently written percentile/look-back/exclusion oracle, the whole metarize() for the sort order, '
+                     'the coded floor and (with an exclusion list) the same statistics / percentile clauses on the finished table, and height2code on every binary64 in [0,1e5). Fluffiness is not claimed.',
                 ref='DESIGN.md 4/C04', note=TRUST + '; real-number semantics for the percentile; LOWESS stubbed'),
     'C08': dict(text='Bounded symbolic execution of the whole chain (constructor, three stages, three messages) on every '
                      'accepted table up to the row bound and over parameter families with symbolic leaves, with '
@@ -59,7 +59,7 @@ CLAIMED = {
                      '(duplicates, coincidences, anomalies, extra column, repeated index labels, two dtype variants all in the '
                      'space) against the refusal condition written as a z3 formula; acceptance clauses (new frame, columns, '
                      'dtypes, values, argument untouched, idempotence, warnings).',
-                ref='DESIGN.md 4/C15', note=TRUST + '; only two dtype coercions are modelled'),
+                ref='DESIGN.md 4/C15', note=TRUST + '; only three dtype coercions are modelled (integral float, int time stamps, int32 hit types)'),
     'C05': dict(text='Bounded symbolic execution of the three stages: whole chain on accepted tables, constructed '
                      'post-slicing states (bundle shapes), the MSA cropping, metarize() on arbitrary assignments, and the '
                      'thirty-hit construction that engages the mixture model (every labelling function and score, second '
@@ -86,7 +86,7 @@ CLAIMED = {
     'C09': dict(text='Claimed in part. Symbolic execution of utils.tmp_seed and canonical_demo_data against numpy.random modelled as an '
                      'explicit state cell with a symbolic 5-field legacy state (restored whether the body returns or raises); '
                      'ncomp_from_gmm with any seed >= 0 hands exactly that seed to every mixture model; the chain never touches the '
-                     'global generator; 2-run history independence. Not claimed: bit-identity across processes, hash seeds, builds.',
+                     'global generator; two consecutive ncomp_from_gmm calls hand equal generator states to their mixture models and agree; 2-run history independence. Not claimed: bit-identity across processes, hash seeds, builds.',
                 ref='DESIGN.md 4/C09', note=TRUST + '; determinism of the three numerical procedures is assumed (memoised stubs)'),
     'C11': dict(text='Symbolic execution of the constructor (+ chain) with symbolic per-call dictionaries (presence bit and value per key '
                      'at depths 1-3, unknown keys) over a global with symbolic leaves: caller frame / caller dict / global unchanged, '
